@@ -193,6 +193,35 @@ theorem specCov_symm (del : List Nat) (V W : Mat K) (hV : ∀ a b, V a b = V b a
     refine Finset.sum_congr rfl fun y _ => Finset.sum_congr rfl fun x _ => ?_
     rw [hW y x]; ring
 
+/-- the matrix handed to `fromscovmat` is symmetric (for all index pairs, also outside the register) -/
+theorem gaussDyneXP_cov_symm (tot : Nat) (del : List Nat) (hnd : del.Nodup) (hlt : ∀ d ∈ del, d < tot)
+    (V : Mat K) (r : Vec K) (W : Mat K) (vm : Vec K) (hV : ∀ a b, V a b = V b a) (hW : ∀ x y, W x y = W y x)
+    (a b : Nat) : (gaussDyneXP tot del V r W vm).cov a b = (gaussDyneXP tot del V r W vm).cov b a := by
+  by_cases ha : a < tot
+  · by_cases hb : b < tot
+    · rw [gaussDyneXP_cov tot del hnd hlt V r W vm a b ha hb, gaussDyneXP_cov tot del hnd hlt V r W vm b a hb ha]
+      exact specCov_symm del V W hV hW a b
+    · have hk := del_length_le hnd hlt
+      have htot : tot - del.length + del.length = tot := by omega
+      have k1 : b ∉ keep tot del := fun h => hb (mem_keep.mp h).1
+      have d1 : b ∉ del := fun h => hb (hlt b h)
+      have hne : ¬ a = b := fun e => hb (e ▸ ha)
+      have hne' : ¬ b = a := fun e => hne e.symm
+      simp [gaussDyneXP, reassemble, htot, k1, d1, hne, hne']
+  · have hk := del_length_le hnd hlt
+    have htot : tot - del.length + del.length = tot := by omega
+    have k1 : a ∉ keep tot del := fun h => ha (mem_keep.mp h).1
+    have d1 : a ∉ del := fun h => ha (hlt a h)
+    by_cases e : a = b
+    · subst e; rfl
+    · have e' : ¬ b = a := fun x => e x.symm
+      simp [gaussDyneXP, reassemble, htot, k1, d1, e, e']
+
+theorem sumTo_zero (k : Nat) : (sumTo k fun _ => (0 : K)) = 0 := by
+  induction k with
+  | zero => rfl
+  | succ k ih => simp [sumTo, ih]
+
 end explicit
 
 /-! ### Gaussian simulator: `scovmat ∘ fromscovmat = id` on symmetric matrices -/
